@@ -112,6 +112,9 @@ func scenC05(k *K) {
 	for _, wr := range c.Writes {
 		universe[wr.Hash] = true
 	}
+	for h := range c.Maybe {
+		universe[h] = true
+	}
 	k.W.mu.Lock()
 	effects := len(T.Disk.Effects)
 	ackList := append([]c05ack(nil), acks...)
